@@ -2,6 +2,7 @@ package main
 
 import (
 	"strings"
+	"verifharness/runner"
 
 	"github.com/TimothyStiles/poly/checks"
 	"github.com/TimothyStiles/poly/seqhash"
@@ -11,10 +12,10 @@ import (
 
 func init() {
 	// C11
-	register("revcomp", func(a []string) ([]string, error) {
+	runner.Register("revcomp", func(a []string) ([]string, error) {
 		return []string{transform.ReverseComplement(a[0]), transform.Complement(a[0]), transform.Reverse(a[0]), bstr(checks.IsPalindromic(a[0]))}, nil
 	})
-	register("variants", func(a []string) ([]string, error) {
+	runner.Register("variants", func(a []string) ([]string, error) {
 		v, err := variants.AllVariantsIUPAC(a[0])
 		if err != nil {
 			return nil, err
@@ -22,11 +23,11 @@ func init() {
 		return []string{strings.Join(v, ",")}, nil
 	})
 	// C12
-	register("rotate", func(a []string) ([]string, error) {
+	runner.Register("rotate", func(a []string) ([]string, error) {
 		return []string{seqhash.RotateSequence(a[0])}, nil
 	})
 	// C04 / C05
-	register("hash", func(a []string) ([]string, error) {
+	runner.Register("hash", func(a []string) ([]string, error) {
 		h, err := seqhash.Hash(a[0], a[1], a[2] == "true", a[3] == "true")
 		if err != nil {
 			return nil, err
@@ -49,13 +50,13 @@ func hashFields(seq, ty, c, d string) (st string, val string) {
 }
 
 func init() {
-	register("hash2", func(a []string) ([]string, error) {
+	runner.Register("hash2", func(a []string) ([]string, error) {
 		s1, v1 := hashFields(a[0], a[1], a[2], a[3])
 		s2, v2 := hashFields(a[4], a[5], a[6], a[7])
 		return []string{s1, v1, s2, v2}, nil
 	})
 	// every word of length n over alpha, odometer order (last letter fastest)
-	register("hashall", func(a []string) ([]string, error) {
+	runner.Register("hashall", func(a []string) ([]string, error) {
 		alpha := a[0]
 		n := atoi(a[1])
 		idx := make([]int, n)
